@@ -56,10 +56,8 @@ private def readBatch (j : Json) : Except String ObsBatch := do
   let eq ← parseNamed ratMat (← j.getObjVal? "eq")
   pure { pin := pin, val := val, eq := eq }
 
-/-- `Holds.C15` on one observation batch against the user's tables -/
-private def holdsBatch (b : Nat) (pin val : Tbl) (eq : List (String × Tbl)) (bt : ObsBatch) : Option String :=
-  Jinns.Holds.holdsObsBatch b (lifted pin) (lifted val) (eq.map fun kt => lifted kt.2)
-    bt.pin bt.val (bt.eq.map (·.2)) (eq.map (·.1) == bt.eq.map (·.1))
+private def toB15 (bt : ObsBatch) : Jinns.Holds.Batch15 := (bt.pin, bt.val, bt.eq)
+private def liftEq (eq : List (String × Tbl)) : List (String × List (List Rat)) := eq.map fun kt => (kt.1, lifted kt.2)
 
 /-- request `c15_obs`: {b, pin, val, eq:[[name, tbl]], built: bool,
     steps:[{indices, pin, val, eq:[[name, mat]]}]} -/
@@ -77,7 +75,7 @@ private def handleObs (j : Json) : Except String Json := do
     | .ok _ =>
       let mut g := g0
       let mut acc : Acc15 := {}
-      let mut k := 0
+      let mut seen : List Jinns.Holds.Batch15 := []
       for s in steps do
         let idx ← getNatList s "indices"
         let bt ← readBatch s
@@ -85,8 +83,8 @@ private def handleObs (j : Json) : Except String Json := do
         g := r.1
         if !(idx.isPerm (List.range g0.n)) then acc := { acc with contract := false }
         if !(r.2 == bt) then acc := { acc with agree := false }
-        acc := acc.note k (holdsBatch b pin val eq bt)
-        k := k + 1
+        seen := seen ++ [toB15 bt]
+      acc := acc.note 0 (Jinns.Holds.holdsC15Obs b (lifted pin) (lifted val) (liftEq eq) seen)
       pure (result15 none [] acc)
 
 /-- request `c15_param`: {n, b, method, keys:[{name, range:[lo,hi]|null, user:tbl|null}],
@@ -116,9 +114,8 @@ private def handleParam (j : Json) : Except String Json := do
     -- a broken sampler contract shows in Holds on the observed stores
     let mut acc : Acc15 := {}
     if let some ss := stores then
-      for k in keys do
-        acc := acc.note 0 (Jinns.Holds.holdsParamKey n b (k.user.map lifted) k.range
-          ((ss.lookup k.name).getD []) [])
+      acc := acc.note 0 (Jinns.Holds.holdsC15Param n b (keys.map fun k =>
+        (k.user.map lifted, k.range, (ss.lookup k.name).getD [], [])))
     pure (result15 (some (e.name, "init")) [] acc)
   | .ok mstores =>
     let ms := Json.arr (mstores.map fun kv => Json.arr #[Json.str kv.1, jRatMat kv.2]).toArray
@@ -153,9 +150,8 @@ private def handleParam (j : Json) : Except String Json := do
             served := served.map fun kv => if kv.1 == name then (name, kv.2 ++ [bt]) else kv
             if !(r.2 == bt) then acc := { acc with agree := false }
         if !(ents.toList.length == keys.length) then acc := { acc with agree := false }
-      for k in keys do
-        acc := acc.note 0 (Jinns.Holds.holdsParamKey n b (k.user.map lifted) k.range
-          ((ss.lookup k.name).getD []) ((served.lookup k.name).getD []))
+      acc := acc.note 0 (Jinns.Holds.holdsC15Param n b (keys.map fun k =>
+        (k.user.map lifted, k.range, (ss.lookup k.name).getD [], (served.lookup k.name).getD [])))
       pure (result15 none [("model_stores", ms)] acc)
 
 /-- request `c15_multi`: {b, pin_given, val_given, pin_keys, val_keys, eq_keys|null,
@@ -191,6 +187,10 @@ private def handleMulti (j : Json) : Except String Json := do
       let mut gs := gs0
       let mut acc : Acc15 := {}
       let mut k := 0
+      let mut allSteps : List (List (String × Bool × Option Jinns.Holds.Batch15)) := []
+      let netTables := nets.map fun a => (a.name, match a.pin, a.val with
+        | some p, some v => some (lifted p, lifted v, liftEq a.eq)
+        | _, _ => none)
       for sj in steps do
         let ents ← sj.getArr?
         let mut oracles : List (List Nat) := []
@@ -200,7 +200,6 @@ private def handleMulti (j : Json) : Except String Json := do
           | none =>
             oracles := oracles ++ [[]]
             acc := { acc with agree := false }
-            acc := acc.note k (some "multi-network-missing-from-the-batch")
           | some e =>
             let empty ← getBool e "empty"
             let idx ← optAt15 e "indices" natList
@@ -209,24 +208,23 @@ private def handleMulti (j : Json) : Except String Json := do
             seen := seen ++ [(kg.1, empty, bt)]
             if let (some g, some ix) := (kg.2, idx) then
               if !(ix.isPerm (List.range g.n)) then acc := { acc with contract := false }
-        if !(ents.toList.length == gs.length) then
-          acc := { acc with agree := false }
-          acc := acc.note k (some "multi-batch-keys-differ-from-the-networks")
+        if !(ents.toList.length == gs.length) then acc := { acc with agree := false }
         let r := multiNext gs oracles
         gs := r.1
         for (name, empty, bt) in seen do
           let model := (r.2.lookup name).getD none
           let implB : Option ObsBatch := if empty then none else bt
           if !(model == implB) then acc := { acc with agree := false }
-          let net := nets.find? (fun a => a.name == name)
-          let hasData := match net with | some a => a.pin.isSome | none => false
-          let inner : Option String := match net, bt with
-            | some a, some bb => (match a.pin, a.val with
-                | some p, some v => holdsBatch b p v a.eq bb
-                | _, _ => none)
-            | _, _ => none
-          acc := acc.note k (Jinns.Holds.holdsMultiEntry hasData empty inner)
+        -- the observed step, in the order the implementation returned it
+        let mut obsStep : List (String × Bool × Option Jinns.Holds.Batch15) := []
+        for e in ents.toList do
+          let name ← getStr e "name"
+          let empty ← getBool e "empty"
+          let bt ← optAt15 e "batch" readBatch
+          obsStep := obsStep ++ [(name, empty, bt.map toB15)]
+        allSteps := allSteps ++ [obsStep]
         k := k + 1
+      acc := acc.note 0 (Jinns.Holds.holdsC15Multi b netTables allSteps)
       pure (result15 none [] acc)
 
 def opsC15 : List (String × (Json → Except String Json)) :=
